@@ -43,6 +43,8 @@ manifest = {
          "kind_free_text": "Coq 8.16.1 development: Base/ Model/ Gen/ Proofs/ Props/; full .vo build; Print Assumptions per theorem; coqchk in the thorough tier"},
         {"name": "harness", "path": "harness/", "serves_properties": engines_served,
          "kind_free_text": "Python driver: gate, (T) generators, L1 model/code correspondence via generated cases.v + vm_compute, L2 property-level search on the implementation, known-finding replay, evidence"},
+        {"name": "py2coq", "path": "translator/", "serves_properties": [p for p in ("C19", "C02") if p in engines_served],
+         "kind_free_text": "fail-closed Python-ast to Gallina translator: regenerates coq/Gen/CanonAffine.v (snaxc/util/canonicalize_affine.py) and coq/Gen/StrideCanon.v (StridePattern.canonicalize) from /repo on every run; the C19/C02 theorems are proved against the generated definitions"},
     ],
     "checks": checks,
     "not_applicable": na,
